@@ -1241,7 +1241,20 @@ impl DistributedTxCoordinator {
             stats.pending_abort += 1;
         }
 
+        // A transaction whose completion is in the log is finished, whatever the state this
+        // coordinator was constructed with (a snapshot from `load_from_store` taken before
+        // the outcome) still says: left pending it could be committed after it was aborted.
+        for tx_id in &recovery_state.completed_txs {
+            pending.remove(tx_id);
+        }
+
         drop(pending);
+        // ... and nothing it held may stay locked (locks under handles that never reached
+        // a vote, or whose release was logged after the snapshot was taken)
+        for tx_id in &recovery_state.completed_txs {
+            self.lock_manager.release(*tx_id);
+            self.wait_graph.remove_transaction(*tx_id);
+        }
         // Force-release orphaned locks from completed transactions
         for orphan in &recovery_state.orphaned_locks {
             tracing::warn!(
